@@ -241,6 +241,14 @@ def gen_wrap(rng, k):
     n = rng.randint(1, 10)
     pos = gen_positions(rng, cell, n)
     sc = [[dy(rng, -3, 4) for _ in range(3)] for _ in range(n)]
+    if k % 4 == 3:
+        # fractional coordinates a few 1e-6 away from a cell face (inside or outside): wrapping must still move them by an
+        # integer, not snap them onto the face
+        fc = fmat(cell)
+        for i in range(n):
+            j = rng.randrange(3)
+            sc[i][j] = rng.randint(-2, 3) + rng.choice([-1, 1]) * rng.choice([1, 4, 9, 20, 60]) * 2.0 ** -20
+        pos = [[float(x) for x in to_cart_x(fc, [F(v) for v in row])] for row in sc]
     if k % 10 == 8:
         pbc = True
     elif k % 10 == 9:
